@@ -1129,6 +1129,82 @@ impl Value {
     }
 }
 
+/// A value in flight through a channel. It is owned by the channel and does not point into
+/// any thread's heap, so it stays valid when the writing task finishes (and its heap is
+/// freed) before the value is read.
+enum ChannelValue {
+    Scalar(Value),
+    String(String),
+    Array(Vec<ChannelValue>),
+    Struct(Vec<ChannelValue>),
+    Variant(u16, Box<ChannelValue>),
+    Channel(Arc<Mutex<VecDeque<ChannelValue>>>),
+}
+
+impl ChannelValue {
+    /// copy a value out of `vm`'s heap
+    fn from_value(val: Value, vm: &mut VmGreenThread) -> ChannelValue {
+        match val.1 {
+            ValueTag::Int | ValueTag::Float | ValueTag::Bool | ValueTag::Addr => {
+                ChannelValue::Scalar(val)
+            }
+            ValueTag::Struct => {
+                let struct_obj = val.get_struct(vm);
+                let mut fields = vec![];
+                for field in struct_obj.get_fields() {
+                    fields.push(ChannelValue::from_value(*field, vm));
+                }
+                ChannelValue::Struct(fields)
+            }
+            ValueTag::Array => {
+                let array_obj = val.get_array(vm);
+                let mut elems = vec![];
+                for elem in array_obj.data.iter() {
+                    elems.push(ChannelValue::from_value(*elem, vm));
+                }
+                ChannelValue::Array(elems)
+            }
+            ValueTag::Variant => {
+                let variant_obj = val.get_variant(vm);
+                let tag = variant_obj.tag;
+                ChannelValue::Variant(tag, Box::new(ChannelValue::from_value(variant_obj.val, vm)))
+            }
+            ValueTag::String => ChannelValue::String(val.view_string(vm).to_string()),
+            ValueTag::Channel => {
+                let channel_obj = unsafe { val.get_channel(vm) };
+                ChannelValue::Channel(channel_obj.data.clone())
+            }
+        }
+    }
+
+    /// build the value in `vm`'s heap
+    fn into_value(self, vm: &mut VmGreenThread) -> Value {
+        match self {
+            ChannelValue::Scalar(v) => v,
+            ChannelValue::String(s) => StringObject::new(s, vm).into(),
+            ChannelValue::Array(elems) => {
+                let mut vals = vec![];
+                for e in elems {
+                    vals.push(e.into_value(vm));
+                }
+                ArrayObject::new(vals, vm).into()
+            }
+            ChannelValue::Struct(fields) => {
+                let mut vals = vec![];
+                for f in fields {
+                    vals.push(f.into_value(vm));
+                }
+                StructObject::new(vals, vm).into()
+            }
+            ChannelValue::Variant(tag, val) => {
+                let v = val.into_value(vm);
+                EnumObject::new(tag, v, vm).into()
+            }
+            ChannelValue::Channel(data) => ChannelObject::new_with_data(vm, data).into(),
+        }
+    }
+}
+
 impl Value {
     fn deep_copy(self, vm: &mut VmGreenThread) -> Value {
         match self.1 {
@@ -1454,7 +1530,7 @@ impl ArrayObject {
 struct ChannelObject {
     header: ObjectHeader,
     // TODO: instead of Arc Mutex VecDeque there's probably something much better
-    data: Arc<Mutex<VecDeque<Value>>>,
+    data: Arc<Mutex<VecDeque<ChannelValue>>>,
 }
 
 impl ChannelObject {
@@ -1464,7 +1540,7 @@ impl ChannelObject {
 
     fn new_with_data(
         vm: &mut VmGreenThread,
-        data: Arc<Mutex<VecDeque<Value>>>,
+        data: Arc<Mutex<VecDeque<ChannelValue>>>,
     ) -> *mut ChannelObject {
         let header = ObjectHeader {
             kind: ObjectKind::Channel,
@@ -1489,23 +1565,19 @@ impl ChannelObject {
         chan
     }
 
-    fn read_value(&self) -> Option<Value> {
+    fn read_value(&self) -> Option<ChannelValue> {
         let mut data = self.data.lock().unwrap();
         // TODO: it would be better to put this thread to sleep instead of constantly trying and failing to read from the channel
         data.pop_front()
     }
 
-    fn write_value(&self, val: Value) {
+    fn write_value(&self, val: ChannelValue) {
         let mut data = self.data.lock().unwrap();
         data.push_back(val);
     }
 
     fn copy(&self, vm: &mut VmGreenThread) -> Value {
         ChannelObject::new_with_data(vm, self.data.clone()).into()
-    }
-
-    fn header_ptr(&mut self) -> *mut ObjectHeader {
-        self as *mut Self as *mut ObjectHeader
     }
 
     fn nbytes(&self) -> usize {
@@ -2278,7 +2350,7 @@ impl VmGreenThread {
                 let read_val = chan_obj.read_value();
                 match read_val {
                     Some(read_val) => {
-                        let read_val = read_val.deep_copy(self);
+                        let read_val = read_val.into_value(self);
                         self.push(read_val)
                     } // TODO: use registers
                     None => {
@@ -2292,8 +2364,8 @@ impl VmGreenThread {
                 let chan = self.pop(); // TODO: use registers
                 let chan = unsafe { chan.get_channel_mut(self) };
 
-                // TODO: write_barrier not necessary
-                self.write_barrier(chan.header_ptr(), val);
+                // the channel takes its own copy: the queue must not point into this thread's heap
+                let val = ChannelValue::from_value(val, self);
                 chan.write_value(val);
             }
             Instr::ConstructStruct(n) => self.construct_struct(n as usize),
@@ -2612,12 +2684,9 @@ impl VmGreenThread {
                     }
                 }
                 ObjectKind::Channel => {
+                    // values in flight are owned by the channel, not by any heap: nothing to mark
                     let obj = unsafe { &*(header_ptr as *const ChannelObject) };
                     *batch = batch.saturating_sub(obj.nbytes());
-                    let data = obj.data.lock().unwrap();
-                    for elem in data.iter() {
-                        Self::mark(elem, &mut self.gray_stack, self.gc_visited);
-                    }
                 }
             }
         }
